@@ -5,11 +5,12 @@ import json, os, glob, sys
 root = os.path.dirname(os.path.dirname(os.path.abspath(__file__)))
 props = [json.loads(l) for l in open(os.path.join(root, 'properties.jsonl'))]
 checks, na = [], []
+registered = {l.strip() for l in open(os.path.join(root, 'tools', 'registered.txt')) if l.strip()}   # integrated by the lead
 for p in props:
     pid = p['id']
     frag_path = os.path.join(root, 'harness', 'props', pid.lower(), 'manifest.json')
     frag = json.load(open(frag_path)) if os.path.exists(frag_path) else None
-    if not frag or not frag.get('claimed', True):
+    if not frag or not frag.get('claimed', True) or pid not in registered:
         na.append({"property_id": pid, "reason": (frag or {}).get('reason', 'monitor not built yet (runtime-monitoring harness under construction); see DESIGN.md section 5 for the planned check')})
         continue
     checks.append({
